@@ -3182,6 +3182,15 @@ impl<'s> Semantics<'s> {
 
             let value = self.operand_load(block, &detail.operands[0])?;
 
+            // push of the stack pointer stores its value before the decrement
+            let value = if value.scalars().contains(&&self.mode().sp()) {
+                let temp = self.temp(0, value.bits());
+                block.assign(temp.clone(), value);
+                temp.into()
+            } else {
+                value
+            };
+
             self.mode().push_value(block, value)?;
 
             block.index()
